@@ -454,7 +454,33 @@ def k4_key_normal_form(ctx, K: Kinds) -> None:
             ctx.ok("K4", "rules_up_to_equivalence keys its dictionary by representatives")
         else:
             ctx.violation("K4", s, f"rules_up_to_equivalence keys its dictionary by `{norm(s.slice)}`, which is not `equivdb[start]`")
-    # equivalences inside one class are skipped, cycles connected first
+    # equivalences inside one class are skipped ...
+    for s in stores:
+        loop = next((l for l in C.enclosing_loops(m.node, s) if isinstance(l, ast.For)), None)
+        if loop is None or not isinstance(loop.target, ast.Tuple) or len(loop.target.elts) != 2 or not all(isinstance(e, ast.Name) for e in loop.target.elts):
+            raise AnalysisError("K4: rules_up_to_equivalence no longer iterates over (start, ends) pairs")
+        sv, ev = (e.id for e in loop.target.elts)
+        dropped = False
+        for t, pol in C.guards(m.node, s, within=loop):
+            if pol:
+                continue
+            for x in ast.walk(t):
+                if _is_equivalence_test(x, sv, ev, K, m.node):
+                    dropped = True
+        if dropped:
+            ctx.ok("K4", "a rule whose only child is equivalent to its parent is left out of the collapsed dictionary")
+        else:
+            ctx.violation("K4", s, "rules inside one equivalence class are no longer left out by an equivalence test on (start, ends[0]): a one-way rule whose ends were "
+                          "merged by connect_cycles collapses to `r -> (r,)`, which the tree searcher accepts as a rule for r (a circular specification)")
+    are = P.need_method("RuleDBBase", "are_equivalent", own=True)
+    rets = [r for r in C.returns_of(are.node) if r.value is not None]
+    ps = [a.arg for a in are.node.args.args[1:]]
+    if len(rets) == 1 and len(ps) == 2 and isinstance(rets[0].value, ast.Call) and norm(rets[0].value.func) == "self.equivdb.equivalent" \
+            and sorted(norm(a) for a in rets[0].value.args) == sorted(ps):
+        ctx.ok("K4", "are_equivalent is equivdb.equivalent of its two labels")
+    else:
+        ctx.violation("K4", are.node, "RuleDBBase.are_equivalent must be equivdb.equivalent(label, other)", construct="RuleDBBase.are_equivalent")
+    # ... and cycles connected first
     calls = [c for c in walk_local(m.node) if isinstance(c, ast.Call) and norm(c.func).endswith("equivdb.connect_cycles")]
     loops = [n for n in walk_local(m.node) if isinstance(n, ast.For)]
     if calls and loops and all(C.dominates(m.node, C.stmt_of(calls[0]), l) for l in loops):
@@ -462,6 +488,25 @@ def k4_key_normal_form(ctx, K: Kinds) -> None:
     else:
         ctx.violation("K4", m.node, "rules_up_to_equivalence must call equivdb.connect_cycles() before it collapses rules to representatives",
                       construct="RuleDBBase.rules_up_to_equivalence connect_cycles")
+
+
+def _is_equivalence_test(x: ast.AST, sv: str, ev: str, K, func) -> bool:
+    """x tests that label `sv` and an element of `ev` are in one equivalence class."""
+    def is_start(e):
+        return isinstance(e, ast.Name) and e.id == sv
+
+    def is_end(e):
+        return isinstance(e, ast.Subscript) and isinstance(e.value, ast.Name) and e.value.id == ev
+
+    if isinstance(x, ast.Call) and isinstance(x.func, ast.Attribute) and x.func.attr in ("are_equivalent", "equivalent") and len(x.args) == 2:
+        a, b = x.args
+        return (is_start(a) and is_end(b)) or (is_start(b) and is_end(a))
+    if isinstance(x, ast.Compare) and len(x.ops) == 1 and isinstance(x.ops[0], ast.Eq):
+        a, b = x.left, x.comparators[0]
+        if all(isinstance(e, ast.Subscript) and K._is_equivdb(e.value, func) for e in (a, b)):
+            a, b = a.slice, b.slice
+            return (is_start(a) and is_end(b)) or (is_start(b) and is_end(a))
+    return False
 
 
 # ------------------------------------------------------------- cache invalidation
